@@ -41,7 +41,7 @@ import tempfile
 from bounded.common import make_environ, serve, fail
 
 BOUND = ('names = prefix x (<=3 (quick) / <=4 (thorough) navigation segments over {., .., empty, sub, root, rootx, up}) '
-         'x leaf in {f.txt, root.txt, nofile, empty, ..} joined by one separator style from {/, //, \\, alternating / and \\} '
+         'x leaf in {f.txt, root.txt, nofile, empty, ..} joined by one separator style from {/, //} and, up to 2 (quick) / 3 navigation segments, {\\, alternating / and \\} '
          'with prefix in {none, /, \\, //, /\\, ./}, exhaustive; plus absolute names of every file of the tree, of R itself, '
          'R+"x", /etc/passwd, dot-dot chains of depth 1..8 to decoys and /etc/passwd, NUL / over-long / non-UTF-8 names; '
          'x root spellings {absolute: R, R/, R//, T/up/./root, T/up/rootx/../root/, R/sub/.. ; relative: root, root/, ./root, '
@@ -133,7 +133,7 @@ def gen_cases(tier, seed):
         for leaf in LEAVES:
             segs = list(nav) + [leaf]
             for style in STYLES:
-                if style in ('\\', 'alt') and tier == 'quick' and len(nav) > 2:
+                if style in ('\\', 'alt') and len(nav) > (2 if tier == 'quick' else 3):
                     continue
                 body = join_style(segs, style)
                 for prefix in (PREFIXES if len(nav) <= 1 else PREFIXES[:2]):
